@@ -133,6 +133,16 @@ func (x *Exec) doCall(f *Frame, st *State, instr ssa.CallInstruction, cc *ssa.Ca
 			info.Name = c.Fn.String()
 			return x.callFunction(f, st, c.Fn, args, nil, info)
 		}
+		// A-CALLBACK: a value of a named callback type of the repository (types.StateCallback, types.ResponseCallback)
+		// is a handler registered by another module: it is taken to be registered (non-nil) and to leave this module's
+		// store, the bank ledger of this module's accounts and the caller's memory untouched
+		if nt, ok := types.Unalias(cc.Value.Type()).(*types.Named); ok && strings.HasSuffix(nt.Obj().Name(), "Callback") && nt.Obj().Pkg() != nil && x.prog.isRepoPkg(nt.Obj().Pkg().Path()) {
+			x.assumed["A-CALLBACK: call of a registered "+nt.Obj().Name()+" at "+info.Pos+" has no effect on this module's state"] = true
+			if info.ResTyp == nil {
+				return single(st, nil)
+			}
+			return single(st, x.freshVal(st, info.ResTyp, "r_callback"))
+		}
 		info.Name = "dynamic:" + cc.Value.Name()
 		return x.unknownCall(f, st, info)
 	}
@@ -533,6 +543,9 @@ func (x *Exec) applyContract(f *Frame, st *State, fn *ssa.Function, c *Contract,
 		post = pre.havocAll(x)
 	} else {
 		for _, m := range c.Modifies {
+			if strings.HasPrefix(m, "*") {
+				continue // pointee of a parameter: handled below
+			}
 			post.havoc(x, m)
 		}
 	}
